@@ -307,6 +307,53 @@ class Ctx:
             return list(ex.map(one, files))
 
 
+def binding_a(ctx, gen_module, cfgs, driver, variant, trace_module):
+    """Binding A (DESIGN 4.2): TLC prints every behaviour of the spec to a depth bound; the real object is
+    stepped through each and must return what the spec prescribes.  A disagreement is handed to the ordinary
+    replay path (binding B decides: re-execute the op path, validate that recording)."""
+    nv = ns = 0
+    nviol = 0
+    for cfg in cfgs:
+        r = ctx.tlc(gen_module, cfg=cfg, workers=1, xmx="4g")
+        ctx.require_ok(r, "behaviour generation %s/%s" % (gen_module, cfg))
+        vf = os.path.join(ctx.scratch, "t", "vectors-%s.jsonl" % cfg.replace(".cfg", ""))
+        n = 0
+        with open(vf, "w") as f:
+            for m in re.finditer(r'^<<"GEN", (".*")>>$', r["out"], re.M):
+                f.write(json.loads(m.group(1)) + "\n")
+                n += 1
+        if n == 0:
+            raise Infra("behaviour generation %s/%s printed nothing" % (gen_module, cfg))
+        p = subprocess.run([ctx.drive_bin, "-p", driver, "-var", variant, "-vectors", vf], capture_output=True, text=True, timeout=900)
+        if p.returncode != 0:
+            raise Infra("vector replay failed: " + p.stderr[-800:])
+        res = json.loads(p.stdout.strip().split("\n")[-1])
+        nv += res["vectors"]
+        ns += res["steps"]
+        ctx.states += r["distinct"]
+        ctx.transitions += r["generated"]
+        if res.get("mismatch"):
+            mm = res["mismatch"]
+            out = os.path.join(ctx.scratch, "t", "vec-confirm.lin.ndjson")
+            ctx.replay_path(driver, variant, mm["path"], out=out)
+            opn, _ = known_findings(ctx.prop)
+            tcfg = ctx.trace_cfg(trace_module, [k["id"] for k in opn])
+            rr = ctx.tlc(trace_module, cfg=tcfg, env={"TRACE": out}, workers=1, xmx="1g")
+            if rr["rc"] == 12 and rr["mismatches"]:
+                rp = write_replay(ctx, driver, variant, trace_module, mm["path"], dict(res=mm["got"], proj={}),
+                                  note="found by binding A: the spec prescribes %s" % json.dumps(mm["want"]))
+                log("behaviour of the spec not followed by the code: path=%s got=%s want=%s" % (
+                    json.dumps(mm["path"], separators=(",", ":"))[:400], json.dumps(mm["got"]), json.dumps(mm["want"])))
+                violation(ctx, rp)
+                nviol += 1
+            else:
+                # the recording of that path is accepted by the spec (an open finding's deviation, or a result the
+                # generator over-specified): binding B is the judge
+                ctx.notes.setdefault("binding_a_disagreements_explained", []).append(mm["path"][-6:])
+    ctx.notes["binding_a"] = dict(generator=gen_module, behaviours_replayed=nv, calls_compared=ns)
+    return nviol
+
+
 # -------------------------------------------------------------- trace helpers
 def load_trace(path):
     with open(path) as f:
